@@ -11,9 +11,18 @@ def build(release=False):
     # built once per check run (by the main process, from /repo's current tree); the job processes inherit the marker
     if os.environ.get('VERIF_RUNNER_BUILT') == out and os.path.exists(out):
         return out
-    shutil.copyfile(os.path.join(frontend.REPO, 'Cargo.lock'), os.path.join(RUNNER_DIR, 'Cargo.lock'))
+    rdir = RUNNER_DIR
+    if frontend.REPO != '/repo':
+        # checks pointed at a scratch copy of the repository (VERIF_REPO, seed regressions): the runner is built from a copy
+        # of its crate whose path dependency names that copy
+        rdir = os.path.join(frontend.CACHE, 'runner-src')
+        shutil.rmtree(rdir, ignore_errors=True)
+        shutil.copytree(RUNNER_DIR, rdir, ignore=shutil.ignore_patterns('target'))
+        t = open(os.path.join(rdir, 'Cargo.toml')).read().replace('/repo/rasn-compiler', os.path.join(frontend.REPO, 'rasn-compiler'))
+        open(os.path.join(rdir, 'Cargo.toml'), 'w').write(t)
+    shutil.copyfile(os.path.join(frontend.REPO, 'Cargo.lock'), os.path.join(rdir, 'Cargo.lock'))
     cmd = ['cargo', 'build', '--offline'] + (['--release'] if release else [])
-    r = frontend.sh(cmd, cwd=RUNNER_DIR, env={'CARGO_TARGET_DIR': TARGET, 'RUSTUP_TOOLCHAIN': 'stable'})
+    r = frontend.sh(cmd, cwd=rdir, env={'CARGO_TARGET_DIR': TARGET, 'RUSTUP_TOOLCHAIN': 'stable'})
     if r.returncode != 0:
         sys.stderr.write(r.stdout[-4000:])
         raise SystemExit(2)
